@@ -72,7 +72,13 @@ int main(int argc, char** argv) {
         run_poly(l, bg, 16, std::vector<uint32_t>(v.begin(), v.begin() + (v.size() < 64 ? v.size() : 64)));
         run_poly(l, bg, 64, std::vector<uint32_t>(v.begin(), v.begin() + (v.size() < 128 ? v.size() : 128)));
         for (int k = 1; k <= 2; k++) { run_tlwe(l, bg, 1024, k, rng, v); run_tlwe(l, bg, 16, k, rng, v); }
-    } else { fprintf(stderr, "usage: h_gadget grid|edges --l L --bg B ...\n"); return 2; }
+    } else if (!strcmp(mode, "seq")) {        // histories: many layouts back to back in ONE process, then again in reverse order (a cache keyed by too little shows here)
+        std::vector<long> ls = vh_list(vh_sarg(argc, argv, "--ls", "3,2")), bgs = vh_list(vh_sarg(argc, argv, "--bgs", "7,10"));
+        long nr = vh_arg(argc, argv, "--rand", 64);
+        for (int pass = 0; pass < 2; pass++) for (size_t q = 0; q < ls.size(); q++) { size_t i = pass ? ls.size() - 1 - q : q; int li = (int)ls[i], bi = (int)bgs[i];
+            std::vector<uint32_t> v = edge_vals(li, bi, rng, nr); if (v.size() > 160) v.resize(160);
+            run_poly(li, bi, (q % 2) ? 16 : 1024, v); run_tlwe(li, bi, (q % 2) ? 1024 : 16, 1 + (int)((q + pass) % 2), rng, v); }
+    } else { fprintf(stderr, "usage: h_gadget grid|edges|seq --l L --bg B ...\n"); return 2; }
     fflush(stdout);
     return 0;
 }
